@@ -28,6 +28,12 @@ class Analysis:
         self.cancel_logs = [(i, l) for i, l in self.writes if isinstance(l, CancelLog)]
         self.exec_logs = [(i, l) for i, l in self.writes if isinstance(l, ExecutionLog)]
         self.expire_logs = [(i, l) for i, l in self.writes if isinstance(l, ExpirationLog)]
+        self.no_logger = not any(k.startswith("log.") for k, _ in self.items)
+        if self.no_logger:
+            # the run had no logger: the records the agents received are the only view of acceptances and fills
+            self.order_logs = [(i, kw["log"]) for i, (k, kw) in enumerate(self.items) if k == "cb.submitted"]
+            self.cancel_logs = [(i, kw["log"]) for i, (k, kw) in enumerate(self.items) if k == "cb.canceled"]
+            self.exec_logs = [(i, kw["log"]) for i, (k, kw) in enumerate(self.items) if k == "cb.executed"]
         # distinct fills by identity, in order of first appearance (ground truth of "what was filled")
         seen = set()
         self.fills: List[Tuple[int, ExecutionLog]] = []
